@@ -36,7 +36,8 @@ const SELS: [(&str, (u32, u32, u32)); 7] = [
     // eleven type components on a descendant chain: still below one class
     ("html body div div div div div div div div p", (0, 0, 11)),
 ];
-const COLS: [&str; 4] = ["#010101", "#020202", "#030303", "#040404"];
+/// Four colours that together use every hex digit, in both letter cases.
+const COLS: [&str; 4] = ["#102938", "#4a5B6c", "#7D8e9F", "#f0E1d2"];
 
 /// Reference cascade rank: (importance/origin class, inline, specificity, source index).
 fn rank(d: &Decl, idx: usize) -> (u32, u32, (u32, u32, u32), usize) {
